@@ -453,6 +453,20 @@ def oracle_fault_case(impl_case):
         bad.append("allocator: " + x)
     if bad and fired:
         cls = K17_CLASSES.get((opk, kind))
+        if cls == "K17c":
+            # F8c is about a destination column that is truncated (destination archetype longer than the source's)
+            # or grown (shorter) through the local Vec, or a destination-only archetype being cleared (the K17b
+            # mechanism inside clone_from).  With equal lengths on every shared archetype and nothing to clear,
+            # World::clone_from is panic-safe in the unchanged code: anything seen then is NOT the known class.
+            tt = target["op"].split()
+            before = steps[fi]["worlds"]
+            dstw, srcw = before.get(int(tt[1])), before.get(int(tt[2]))
+            if dstw is not None and srcw is not None:
+                la = {b_: len(r_) for b_, r_ in dstw["archs"]}
+                lb = {b_: len(r_) for b_, r_ in srcw["archs"]}
+                differs = any(la[b_] != lb.get(b_, 0) for b_ in la)
+                if not differs:
+                    cls = None
         if cls:
             known.append((fi + 1, cls))
         else:
